@@ -12,6 +12,7 @@ import Hw.Bitmap.RoundTripHwloc
 import Hw.Bitmap.ScanCursorSafe
 import Hw.Bitmap.ScanCursorRefine
 import Hw.Bitmap.ScanCursorTransfer
+import Hw.Bitmap.ScanCursorDefined
 namespace Hw.Props.C04
 open Hw Hw.Bitmap
 
@@ -204,14 +205,12 @@ theorem C04_sscanf_returns (s : List Byte) (hs : Cursor.NoNul s) :
   | assertFail => exact (h1 h).elim
   | okBig => exact (Cursor.hwlocSscanfC_not_big s h).elim      -- produced by the list parser only
 
-/-- a returned 0 means every word of the destination was written (transfer of `C04_sscanf_*_defined`) -/
-theorem C04_cursor_defined (s : List Byte) (hs : Cursor.NoNul s) :
-    (hwlocScan s ≠ .unsupported → (Cursor.hwlocSscanfC s).res.toScan.defined = true) ∧
-    (listScan s ≠ .unsupported → (Cursor.listSscanfC s).res.toScan.defined = true) ∧
-    (tasksetScan s ≠ .unsupported → (Cursor.tasksetSscanfC s).res.toScan.defined = true) :=
-  ⟨fun h => by rw [Cursor.hwlocSscanfC_refine s hs h]; exact hwlocScan_defined s,
-   fun h => by rw [Cursor.listSscanfC_refine s hs h]; exact listScan_defined s,
-   fun h => by rw [Cursor.tasksetSscanfC_refine s hs h]; exact tasksetScan_defined s⟩
+/-- a returned 0 means every word of the destination was written — for EVERY byte string, sign characters and
+huge numbers included (proved on the cursor-level models directly, not by transfer) -/
+theorem C04_cursor_defined (s : List Byte) :
+    (Cursor.hwlocSscanfC s).res.defined = true ∧ (Cursor.listSscanfC s).res.defined = true ∧
+    (Cursor.tasksetSscanfC s).res.defined = true :=
+  ⟨Cursor.hwlocSscanfC_defined s, Cursor.listSscanfC_defined s, Cursor.tasksetSscanfC_defined s⟩
 
 /-- round trip through the cursor-level (memory-safe) parsers: the printed text holds no NUL, is accepted, and
 denotes the same set -/
